@@ -123,7 +123,7 @@ def run(ctx):
     ctx.coverage.update({
         "evaluations": summ.get("cases", 0),
         "distinct_nontrivial": summ.get("nontrivial", 0),
-        "rule": "cases: (a) every raw value of every size 1..12 (thorough: 1..16), both signednesses, integer / decimal / custom "
+        "rule": "cases: (a) every raw value of every size 1..12 (thorough: 1..18), both signednesses, integer / decimal / custom "
                 "types with scale/offset pairs cycled from fixed pools (small and large integers, dyadic and non-dyadic "
                 "fractions, tiny/huge magnitudes), decoded through Message.SignalLayout().Decode on a real 8-byte "
                 "little-endian message at a random start bit with random surrounding bits; (b) sizes 1..64 x both "
